@@ -240,6 +240,12 @@ TWO_WRITERS = [
     # two generated classes of ONE name (same element class, another swept parameter): each is analysed for what IT needs
     ("src", "sweep_two", "sum", "sweep_two_b"), ("src", "sweep_two_b", "sum", "sweep_two"), ("src", "sweep_two_b"), ("src", "sweep_two"),
     ("src", "sweep_two_b", "sum", "sweep_two", "sum", "sweep_two_b", "sum"),
+    # beyond the small scope: a defaulted parameter and the node that deletes / renames the same-named required key 6-12 nodes apart
+    ("src", "mul3", "muldef", "add", "add", "add", "add", "add", "del_factor"),
+    ("src", "mul3", "muldef", "add", "add", "add", "add", "add", "add", "del_factor"),
+    ("src", "mul3", "mul3", "muldef", "add", "add", "add", "add", "add", "add", "add", "ren_factor_a"),
+    ("src", "mul3", "add", "add", "del_factor", "add", "add", "add", "add", "muldef", "add"),
+    ("src",) + ("mul3",) * 9 + ("muldef", "gainprobe") + ("mul3",) * 20 + ("del_factor", "mul3", "muldef"),
     ("src", "probe_r", "mul3", "probe_r", "ren_r_factor", "mul"), ("src", "ctxw", "mul3", "ctxw", "failif"), ("src", "probe_factor", "mul", "probe_factor", "mul"),
 ]
 
